@@ -366,16 +366,18 @@ ADAPTERS = re.compile(r"\bResult::<T, E>::(map_err|map|inspect_err|inspect)$")
 
 
 def enum_switches_through(body, local):
-    """enum_switches, also following Result adapters that preserve Ok/Err-ness (map_err, map)"""
+    """enum_switches, also following Result adapters that preserve Ok/Err-ness (map_err, map) and plain moves"""
     out = list(enum_switches(body, local))
-    seen = {local}
-    work = [local]
+    seen = set(copies_of(body, local))
+    work = list(seen)
     while work:
         l = work.pop()
         for c in body.calls:
             if c.args and op_local(c.args[0]) == l and ADAPTERS.search(c.name) and c.dest[0] not in seen:
-                seen.add(c.dest[0])
-                work.append(c.dest[0])
+                for d in copies_of(body, c.dest[0]):
+                    if d not in seen:
+                        seen.add(d)
+                        work.append(d)
                 out += enum_switches(body, c.dest[0])
     return out
 
